@@ -141,6 +141,12 @@ def layout_case(seed, text=None):
             odd = rnd.choice(['\x0c', '\x0b', '\x1c', '\x1d', '\x1e', '\x85', '\u2028', '\u2029', '\r'])
             k = rnd.randint(0, len(lines0))
             lines0.insert(k, rnd.choice([f"# a comment with {odd} inside", f"odd{rnd.randint(0, 9)} = 'a{odd}b'", f'probe(700, "x{odd}")']))
+        if rnd.random() < 0.25:
+            # consecutive include statements form ONE statement - also with blank lines, comments or continuations between them
+            incs = [rnd.choice(["include 'a.bare'", "include 'lib/b c.bare'", 'include <sys.bare>', "include 'a.bare'"]) for _ in range(rnd.randint(2, 4))]
+            k = rnd.randint(0, len(lines0)) if rnd.random() < 0.5 else 0
+            if all(not ln.startswith((' ', '\t')) for ln in lines0[k:k + 1]):      # only at the top level of the block structure
+                lines0[k:k] = incs
         text = '\n'.join(lines0)
     lines = text.split('\n')
     names, new, chunked = rewrite(rnd, lines)
